@@ -729,7 +729,12 @@ fn c20_case(r: &mut Rng) -> CliCase {
                     let d = r.bytes_range(1, 24);
                     let mut t = hexify(r, &d);
                     let pos: Vec<usize> = (0..t.len()).filter(|&i| t[i].is_ascii_hexdigit()).collect();
-                    if let Some(&i) = pos.get(r.usize_below(pos.len().max(1))) {
+                    if r.chance(1, 3) && !pos.is_empty() {
+                        // a sign in the FIRST digit of a byte ("+f", "-1"): number parsers accept
+                        // that, hexadecimal text does not contain it
+                        let k = 2 * r.usize_below((pos.len() + 1) / 2);
+                        t[pos[k.min(pos.len() - 1) & !1usize]] = *r.pick(&[b'+', b'+', b'-']);
+                    } else if let Some(&i) = pos.get(r.usize_below(pos.len().max(1))) {
                         t[i] = *r.pick(&[b'+', b'-', b'g', b'x', b':', b'G', b'_', b'.', b'+']);
                     }
                     FileSpec { exists: true, content: t }
